@@ -1,14 +1,15 @@
 (** Safety/Front.v — what "never panics, never hangs" means for the modelled front end (C01).
     Definitions only; the proofs are in Safety/FrontProofs.v.
 
-    The models of the byte-level front end live in Lex/Lexer.v, Lex/StrLexer.v, Syn/Parser.v,
-    Syn/Run.v (lex_all) and Codec/Model.v; every Rust operation that can panic is an explicit
+    The models of the byte-level front end live in Lex/Lexer.v, Lex/StrLexer.v, Syn/Parser.v and
+    Syn/Run.v (lex_all); the stream decoders (Codec/) are proved total by their own area and are
+    re-exported in Properties/C01.v; every Rust operation that can panic is an explicit
     [Panic site] there, every loop that is not structural takes fuel.  The entry points call
     the fuelled functions with a fuel that is LINEAR in the input (lexer/parser:
     [fuel_for s = 2 * remaining + 4], loops: [S (length input)]): "the result is never
     [OutOfFuel]" is therefore the termination-with-linear-cost half of C01, "never [Panic]" the
     totality half. *)
-From PdfV Require Import Base.Prelude Gen.Generated Lex.Lexer Syn.Prim Syn.Parser Codec.Model.
+From PdfV Require Import Base.Prelude Gen.Generated Lex.Lexer Syn.Prim Syn.Parser.
 
 (* the outcome is a value or an error value: no panic at any site, fuel not exhausted *)
 Definition never_crashes {A} (r : res A) : Prop := (forall site, r <> Panic site) /\ r <> OutOfFuel.
@@ -25,21 +26,3 @@ Definition remaining (s : lx) : nat := length (lrest s).
 
 (* the recursion fuel handed out by the entry points is linear in the remaining input *)
 Definition linear_fuel (s : lx) : Prop := fuel_for s = (2 * remaining s + 4)%nat.
-
-(* RunLength input whose every run is complete (a literal run has its bytes, a repeat has its byte):
-   the decidable class on which enc.rs:run_length_decode does not index past the end (C01-a) *)
-Fixpoint rle_complete_go (fuel : nat) (d : bytes) : bool :=
-  match fuel with
-  | O => true
-  | S f =>
-    match d with
-    | [] => true
-    | len :: t =>
-      if len <? rle_lit_below then
-        Nat.leb (N.to_nat len + 1) (length t) && rle_complete_go f (skipn (N.to_nat len + 1) t)
-      else if rle_rep_from <=? len then
-        match t with _ :: t' => rle_complete_go f t' | [] => false end
-      else true
-    end
-  end.
-Definition rle_complete (d : bytes) : bool := rle_complete_go (S (length d)) d.
